@@ -16,13 +16,13 @@ Local Open Scope N_scope.
    cannot fire): the tree built from the events of a successful parse is the abstract tree of those events -
    header language and charset; the root element with its attributes; spec_forest: elements nest as their
    start/end events do, every character-data event is a text node, PIs leave no trace; merge_text: adjacent
-   text nodes joined.  For every nesting fuel >= 1. *)
+   text nodes joined.  For every number of embedding levels. *)
 Theorem C03b_build_is_abstract_tree : forall tbl forced meta fuel bs evs,
   parse_with tbl forced meta fuel bs = POk evs -> no_data evs = true ->
   exists cs lid p1 t a inner p2 ch,
     evs = EvStartDoc cs lid :: (p1 ++ (EvStartElt t a :: inner ++ [EvEndElt t]) ++ p2) ++ [EvEndDoc]
     /\ all_pi p1 = true /\ all_pi p2 = true /\ spec_forest inner ch
-    /\ forall ef, build tbl (S ef) evs = BOk (mk_wtree lid cs (Some (TElt t a (merge_text ch)))).
+    /\ forall ef, build tbl ef evs = BOk (mk_wtree lid cs (Some (TElt t a (merge_text ch)))).
 Proof. exact build_is_spec. Qed.
 Print Assumptions C03b_build_is_abstract_tree.
 
@@ -32,7 +32,7 @@ Theorem C03b_build_denote : forall tbl d evs,
   exists cs lid p1 t a inner p2 ch,
     evs = EvStartDoc cs lid :: (p1 ++ (EvStartElt t a :: inner ++ [EvEndElt t]) ++ p2) ++ [EvEndDoc]
     /\ all_pi p1 = true /\ all_pi p2 = true /\ spec_forest inner ch
-    /\ forall ef, build tbl (S ef) evs = BOk (mk_wtree lid cs (Some (TElt t a (merge_text ch)))).
+    /\ forall ef, build tbl ef evs = BOk (mk_wtree lid cs (Some (TElt t a (merge_text ch)))).
 Proof.
   intros tbl d evs H Hn. apply (build_is_spec tbl 0 0 (S (length (serialize d))) (serialize d) evs); [|exact Hn].
   apply (parse_denote tbl); [intros l _ _; exact typed_wv_agree_proved|exact typed_datetime_agree_proved|exact H].
@@ -76,7 +76,7 @@ Theorem C05c_parse_build_enc_read_partial : forall tbl d evs,
   denote tbl d = Some evs -> no_data evs = true ->
   exists cs lid t a ch,
     parse tbl (S (length (serialize d))) (serialize d) = POk evs
-    /\ (forall ef, build tbl (S ef) evs = BOk (mk_wtree lid cs (Some (TElt t a (merge_text ch)))))
+    /\ (forall ef, build tbl ef evs = BOk (mk_wtree lid cs (Some (TElt t a (merge_text ch)))))
     /\ forall l o out,
         EncXmlProofs.lang_ok (EncXml.xlang_of l) = true ->
         EncXmlIndent.node_ok_g (EncXml.xlang_of l) o EncXml.proot None (to_xnode tbl l (TElt t a (merge_text ch))) = true ->
@@ -131,7 +131,7 @@ Theorem C03b_roundtrip_fragment_partial : forall tblb TBL L l o p t opts nm ch,
   EncWbxml.header_public_id (EncWbxml.enc_env l o) <> 0 ->
   no_data (flat_map EncWbxmlDenote.events_node (TreeNorm.norm (EncWbxml.o_keep_ws o) [EncWbxml.NElt (EncWbxml.TagTok p t opts nm) [] ch])) = true ->
   exists bs, EncWbxml.enc_wbxml tblb l o [EncWbxml.NElt (EncWbxml.TagTok p t opts nm) [] ch] = EncWbxml.EOk bs /\
-    forall ef, tree_from_wbxml TBL (l_id L) 0 (S ef) bs
+    forall ef, tree_from_wbxml TBL (l_id L) 0 ef bs
                = BOk (mk_wtree (l_id L) 106
                         (hd_error (flat_map tn (TreeNorm.norm (EncWbxml.o_keep_ws o) [EncWbxml.NElt (EncWbxml.TagTok p t opts nm) [] ch])))).
 Proof. exact roundtrip_fragment. Qed.
